@@ -1472,6 +1472,8 @@ class Engine:
 
     def do_yield(self, node, st, k, ctx):
         def f(s1, v):
+            cv = self.oblige(s1, z3.BoolVal(False), "cover", "yield-reachable", node, text="the yield is reachable (vacuity guard)")
+            cv.expect = "sat"
             s1.events.append(("yield", {"value": v, "pc_len": len(s1.pc)}))
             self.on_yield(s1, v, node)
             return k(s1)
